@@ -69,7 +69,7 @@ type fieldGroupGenerator struct {
 
 func (f fieldGroupGenerator) checkReservedIdentifier(name string) error {
 	_, match := reservedIdentifiers[name]
-	match = match || (f.IsException && name == "Error")
+	match = match || (f.IsException && (name == "Error" || name == "ErrorName"))
 	if match {
 		return fmt.Errorf("%q is a reserved ThriftRW identifier", name)
 	}
